@@ -177,6 +177,21 @@ class _M:
                 raise Inapplicable("repeat lower bound depends on an atom's length")
             if hi != MAXREPEAT and (cmax is None or cmax > hi):
                 if cmin > hi:
+                    last = self.units[p - 1] if p > pos else None
+                    if last is not None and last[0] == "a" and last[1].hi() != 1:
+                        # the real engine stops INSIDE this atom after `hi` characters.  Sound only as a
+                        # truth value: continue with the unread remainder of the atom as a pseudo atom;
+                        # a definite match is a match (positions unknown), anything else is undecided.
+                        saved = self.units
+                        self.units = saved[:p] + [("a", _Pseudo(last[1].chars()))] + saved[p:]
+                        try:
+                            r = k(p, groups)
+                        finally:
+                            self.units = saved
+                        if r is not None:
+                            self.partial = True
+                            return r
+                        raise Inapplicable("regex repeat stops inside a symbolic atom")
                     continue
                 raise Inapplicable("repeat upper bound depends on an atom's length")
             r = k(p, groups)
@@ -305,6 +320,16 @@ class SymMatch(SymObject):
         return True
 
 
+class PartialMatch(SymObject):
+    """a definite match whose span ends inside a symbolic atom: usable as a truth value only"""
+
+    def sym_getattr(self, interp, name):
+        raise Inapplicable(f"match.{name} of a match that ends inside a symbolic atom")
+
+    def __bool__(self):
+        return True
+
+
 def _units(s):
     units = []
     for a in SStr.lift(s).atoms:
@@ -333,6 +358,8 @@ def sym_search(pattern, subject, mode="search"):
             return (st, p, g)
         r = m.seq(items, 0, st, {}, done)
         if r is not None:
+            if getattr(m, "partial", False):
+                return PartialMatch()
             return SymMatch(subject, units, r[2], (r[0], r[1]), pattern)
         if mode == "search" and st < len(units) and units[st][0] == "a" and items and items[0] != (C.AT, C.AT_BEGINNING):
             # could a match start at a later character of this atom?  Not if the pattern's first
